@@ -22,17 +22,17 @@ var frozenMin = map[string]int{
 	"P-TAG": 6, "P-TOKEN": 7, "P-VALIDALIAS": 4, "T-CONSTRUCTS": 280, "T-GENNAMES": 4, "T-KEYWORDS": 70, "T-LITFMT": 44,
 	"T-REGEX": 4, "T-RESERVED": 66, "T-STDHINTS": 160, "T-TOKCONTENT": 50, "W-CALLBACK": 90, "W-FS-EFFECTS": 3, "W-GLOBALS-RO": 3,
 	"W-IMPORTS-WRITERS": 9, "W-ISNULL-PURE": 6, "W-NO-CONCURRENCY": 3, "W-NONDET-API": 2, "W-PANICS": 6, "W-REGISTER-CALLERS": 2,
-	"W-RENDER-STORES": 20,
+	"W-RENDER-STORES": 20, "W-FILE-ARGS": 1,
 }
 
 func init() {
-	prop("C01", []string{"T-CONSTRUCTS", "T-KEYWORDS", "P-RENDERITEMS", "P-STMTRENDER", "P-GROUPRENDER", "P-TOKEN", "P-ISNULL"},
-		"Necessary conditions of faithful rendering, on every path: (a) every construct of the generated API emits exactly the delimiter / separator / keyword tokens Go's grammar has for it (independent grammar table, go/scanner, go/token, types.Universe; X and XFunc twins identical); (b) the generic renderer writes open, items, separators, trailing newline, close in that order and treats every list position after the first identically — there is no edge around a separator or an item render other than {nil/null item, first item, empty separator, not multi}, so arity 4, 40 and 4,000 take the same paths; (c) keyword / identifier / package tokens write their text, `default` always gets its colon, a Block after Case / Default drops its braces exactly then.",
+	prop("C01", []string{"T-CONSTRUCTS", "T-KEYWORDS", "P-RENDERITEMS", "P-STMTRENDER", "P-GROUPRENDER", "P-TOKEN", "P-ISNULL", "T-LITFMT", "P-LITCTOR"},
+		"Necessary conditions of faithful rendering, on every path: (a) every construct of the generated API emits exactly the delimiter / separator / keyword tokens Go's grammar has for it (independent grammar table, go/scanner, go/token, types.Universe; X and XFunc twins identical); (b) the generic renderer writes open, items, separators, trailing newline, close in that order and treats every list position after the first identically — there is no edge around a separator or an item render other than {nil/null item, first item, empty separator, not multi}, so arity 4, 40 and 4,000 take the same paths; (c) keyword / identifier / package tokens write their text, `default` always gets its colon, a Block after Case / Default drops its braces exactly then; (d) literal tokens are produced only by Go-syntax formatters applied to the unmodified value (see C11 / C12).",
 		"that arbitrary compositions re-parse to the original tree (depends on go/format and go/parser over all programs); literal values (C11/C12)")
 	prop("C02", []string{"P-FORMAT-GATE", "P-ATOMIC-WRITE", "P-ERR-PROP", "W-PANICS", "T-TOKCONTENT", "P-NILGUARD"},
 		"No success path to the caller's writer avoids format.Source (File.Render: unless NoFormat); the formatter runs once on the private buffer and both modes draw from the same buffer; a formatter error is returned, never written as if valid; the only explicit panic reachable from Render / RenderWithFile / Save is the documented one for unsupported Lit types; token type assertions and item dereferences in the renderer cannot fail. Validity of the bytes then follows from format.Source's contract (trusted).",
 		"that every syntactically invalid composition makes the formatter fail (a property of go/parser)")
-	prop("C03", []string{"P-REGISTER", "P-VALIDALIAS", "P-TOKEN", "P-IMPORTBLOCK", "W-REGISTER-CALLERS"},
+	prop("C03", []string{"P-REGISTER", "P-VALIDALIAS", "P-TOKEN", "P-IMPORTBLOCK", "W-REGISTER-CALLERS", "W-IMPORTS-WRITERS", "W-FILE-ARGS"},
 		"Import bookkeeping decided on every path of the registration function (path enumeration, loop unrolled twice): no alias ⇒ the stored name is the raw hint or standard-library name; guessed or modified names ⇒ alias; checked = stored = returned; first registration wins; the collision test sees every entry; the qualifier written by a package token is the registered name; the import line prints that same entry's name and path, with an alias iff flagged.",
 		"that names supplied by the user through ImportName are truthful")
 	prop("C04", []string{"W-IMPORTS-WRITERS", "W-REGISTER-CALLERS", "W-ISNULL-PURE", "P-RENDERITEMS", "P-STMTRENDER", "P-DICT", "P-FILERENDER-ORDER", "P-IMPORTBLOCK", "P-CTOR"},
@@ -50,7 +50,7 @@ func init() {
 	prop("C08", []string{"W-RENDER-STORES", "W-IMPORTS-WRITERS", "P-REGISTER", "P-FRAGMENT", "P-GROUPRENDER"},
 		"Nothing reachable from any render / isNull implementation or render entry point stores to memory that existed before the call, except new File.imports entries made by the registration function (mod-ref summaries over the module call graph); File.imports is never reset, deleted from or re-assigned; the registration function returns the stored name for a known path before consulting hints; fragment renders use the caller's File; the brace-less case-block form is chosen per render from local copies.",
 		"byte equality of successive renders additionally relies on C07's clauses and on the determinism of the standard library")
-	prop("C09", []string{"W-GLOBALS-RO", "W-NO-CONCURRENCY", "W-RENDER-STORES", "W-NONDET-API"},
+	prop("C09", []string{"W-GLOBALS-RO", "W-NO-CONCURRENCY", "W-RENDER-STORES", "W-NONDET-API", "W-FILE-ARGS"},
 		"No hidden global state: every package-level variable of jen is only read (no store, map update, element store or address escape), jen uses no goroutines, channels, sync, atomic, unsafe or reflect, and every store on the render path goes to the writer, fresh memory or the File's own import table — so Files that share no Code values touch disjoint memory and a File's output depends on that File alone.",
 		"data-race freedom inside the standard library (taken from its documentation); two goroutines mutating one shared Code value through the builder API")
 	prop("C10", []string{"P-ATOMIC-WRITE", "P-ERR-PROP", "W-FS-EFFECTS", "P-FORMAT-GATE"},
@@ -77,7 +77,7 @@ func init() {
 	prop("C17", []string{"P-TAG", "P-MAPRANGE@(jen.tag)", "P-ISNULL@(jen.tag)"},
 		"tag.render writes each pair as key:\"value\" with the value through %q and the value looked up under the printed key, pairs from the sorted key slice joined by exactly one space; the literal is back-quoted only under strconv.CanBackquote and otherwise produced by strconv.Quote; an empty tag is null.",
 		"the round trip through reflect.StructTag for every value (a property of %q and reflect)")
-	prop("C18", []string{"T-STDHINTS", "P-REGISTER", "T-GENNAMES"},
+	prop("C18", []string{"T-STDHINTS", "P-REGISTER", "T-GENNAMES", "W-IMPORTS-WRITERS@hints"},
 		"Every entry of the standard-library table whose package is importable equals the package clause parsed from GOROOT/src of the installed toolchain (exhaustive over the table); a table hit may be stored without alias, a guessed name never; gennames reads the go-list fields back from the positions its template wrote them to and emits path: name.",
 		"the output of actually running gennames (it shells out to `go list`); packages newer than the table get a guessed alias, which the property allows")
 	prop("C19", []string{"P-REGISTER", "P-IMPORTBLOCK", "P-FILERENDER-ORDER"},
